@@ -22,6 +22,8 @@ import RsomeV.Drv.AffExpr
 import RsomeV.Drv.DetModel
 import RsomeV.Drv.AffTri
 import RsomeV.Drv.Lmi
+import RsomeV.Drv.DroModel
+import RsomeV.Drv.Assign
 open Lean
 namespace RsomeV.Drv
 /-- every operation of the line protocol -/
@@ -74,5 +76,7 @@ def dispatch (op : String) (j : Json) : Except String Json :=
   | "aff_tri" => opAffTri j
   | "lmi_dual" => opLmiDual j
   | "rc_lmi" => opRcLmi j
+  | "dro_model" => opDroModel j
+  | "assign_call" => opAssignCall j
   | _ => throw s!"unknown op {op}"
 end RsomeV.Drv
